@@ -632,7 +632,7 @@ def upgrade_exit_state(A, fl, rule):
 
     def stop(node, f):
         return False
-    en = A.enum(resolve=resolve, inline=inl, opaque=opaque, max_paths=60000)
+    en = A.enum(resolve=resolve, inline=inl, opaque=opaque, max_paths=150000, loop_bound=1)
     ps = [p for p in A.paths(en, up, sock) if p.outcome != 'cut']
     n = 0
     for p in ps:
